@@ -93,7 +93,9 @@ def check_operation_wiring(rep, prog, rid):
                 st = d['state']
                 ret = render(st.ret) if st.ret is not None else ''
                 data_obj = d['data'][0][0][:-len('.encrypt')]
-                ok = taint.mentions(ret, d['esk_obj']) and taint.mentions(ret, data_obj) and not taint.mentions(ret, d['subject'])
+                parts = _or_parts(ret)
+                fresh = [x for x in parts if re.match(r'^(PGPMessage\(\)|<PGPMessage(#\d+)?>)$', x)]
+                ok = sorted(x for x in parts if x not in fresh) == sorted([d['esk_obj'], data_obj]) and len(fresh) == 1
                 rep.check(ok, rid, '%s.encrypt' % cls, '%s: returns %s' % (scen, ret[:120]),
                           'the encrypted message returned must consist of the session-key packet and the encrypted container (not the plaintext)',
                           where=fi.where, expected='<message> | %s | %s' % (d['esk_obj'], data_obj), found=ret, scenario=scen)
@@ -102,6 +104,102 @@ def check_operation_wiring(rep, prog, rid):
                 want = '%s.__bytes__()' % d['subject']
                 rep.check(pt in (want, want.replace('__bytes__', '__bytearray__'), d['subject']), rid, '%s.encrypt' % cls, '%s: plaintext %s' % (scen, pt),
                           'the container holds the whole serialised message', where=fi.where, expected=want, found=pt, scenario=scen)
+
+
+def _or_parts(text):
+    """Operands of a chain of `|` / `|=` compositions: '((a | b) | c)' -> ['a', 'b', 'c']."""
+    from . import taint
+    t = taint.strip_parens(text or '')
+    parts = taint._split_top(t, ' | ')
+    if len(parts) == 1:
+        return [t]
+    out = []
+    for p in parts:
+        out.extend(_or_parts(p))
+    return out
+
+
+def _exception_names(t, fi, depth=0):
+    """Class names an `except <t>` clause catches: a name, a tuple, or a class- / module-level constant holding such a tuple."""
+    if isinstance(t, ast.Tuple):
+        return [x for e in t.elts for x in _exception_names(e, fi, depth + 1)]
+    if depth < 3:
+        const = None
+        if isinstance(t, ast.Attribute) and isinstance(t.value, ast.Name) and fi.cls is not None and \
+                (t.value.id in (fi.params[:1] or ['self']) or t.value.id == fi.cls.name):
+            const = fi.cls.find_attr(t.attr)
+        elif isinstance(t, ast.Name):
+            local = [n.value for n in ast.walk(fi.node) if isinstance(n, ast.Assign) and len(n.targets) == 1 and
+                     isinstance(n.targets[0], ast.Name) and n.targets[0].id == t.id]
+            const = local[0] if len(local) == 1 else fi.module.assigns.get(t.id)
+        if isinstance(const, (ast.Tuple, ast.Name, ast.Attribute)) and (isinstance(const, ast.Tuple) or dotted(const) != dotted(t)):
+            return _exception_names(const, fi, depth + 1)
+    return [(dotted(t) or '?').split('.')[-1]]
+
+
+WRONG_CANDIDATE_FAILURES = ('TypeError', 'ValueError', 'NotImplementedError', 'PGPDecryptionError')
+
+
+def check_candidate_search(rep, prog, rid):
+    """PGPMessage.decrypt tries every passphrase session-key packet in turn.  A wrong candidate can fail at EITHER step - recovering the
+    session key (garbage cipher octet: ValueError / NotImplementedError, wrong sizes: TypeError / ValueError) and decrypting + parsing
+    the container with it (unsupported cipher: NotImplementedError, MDC / quick-check mismatch: PGPDecryptionError, garbage packets:
+    ValueError / TypeError) - and each such failure must lead to the NEXT candidate.  For every step call inside the candidate loop the
+    exception classes caught around it by handlers that continue the search must cover all of them."""
+    fi = prog.method('pgpy.pgp', 'PGPMessage', 'decrypt')
+    rep.saw(fn=fi)
+    universe = _sessionkey_universe(prog)
+    loops = [it for it in _sessionkey_iterations(fi, universe) if it[2][0] == 'loop']
+    if not loops:
+        raise AnalysisError('PGPMessage.decrypt: no loop over the session-key packets')
+    builtin_bases = {'TypeError': {'Exception', 'BaseException'}, 'ValueError': {'Exception', 'BaseException'},
+                     'NotImplementedError': {'RuntimeError', 'Exception', 'BaseException'}}
+
+    def bases(name):
+        out = set(builtin_bases.get(name, ()))
+        for ci in prog.classes_by_name.get(name, []):
+            out |= {c.name for c in ci.mro()} | {'Exception', 'BaseException'}
+            for b in ci.external_bases() if hasattr(ci, 'external_bases') else []:
+                out.add(str(b).split('.')[-1])
+        return out | {name}
+    nsteps = 0
+    for var, S, shape, lineno, ittext, loop in loops:
+        parent = {}
+        for n in ast.walk(loop):
+            for ch in ast.iter_child_nodes(n):
+                parent[id(ch)] = n
+        for call in [n for b in loop.body for n in ast.walk(b) if isinstance(n, ast.Call) and isinstance(n.func, ast.Attribute)]:
+            f = call.func
+            step = None
+            if f.attr == 'decrypt_sk':
+                step = 'recovering the session key'
+            elif f.attr == 'decrypt' and isinstance(f.value, ast.Attribute) and f.value.attr == 'message':
+                step = 'decrypting the container with it'
+            elif f.attr == 'parse' and any(isinstance(x, ast.Call) and isinstance(x.func, ast.Attribute) and x.func.attr == 'decrypt'
+                                           for a in call.args for x in ast.walk(a)):
+                step = 'parsing the decrypted container'
+            if step is None:
+                continue
+            nsteps += 1
+            caught = set()
+            node = call
+            while id(node) in parent and node is not loop:
+                up = parent[id(node)]
+                if isinstance(up, ast.Try) and any(node is b for b in up.body):
+                    for h in up.handlers:
+                        leaves = h.body and isinstance(h.body[-1], (ast.Raise, ast.Return, ast.Break))
+                        if leaves:
+                            continue
+                        caught |= set(_exception_names(h.type, fi)) if h.type is not None else {'BaseException'}
+                node = up
+            missing = [e for e in WRONG_CANDIDATE_FAILURES if not (bases(e) & caught)]
+            rep.check(not missing, rid, 'PGPMessage.decrypt', '%s: failures that end the search: %s' % (step, missing),
+                      'with several passphrase recipients a wrong candidate can fail while %s with any of %s; each must lead to the next '
+                      'session-key packet, not out of decrypt()' % (step, ', '.join(WRONG_CANDIDATE_FAILURES)),
+                      where='%s:%d' % (fi.module.relpath, call.lineno), expected='caught and continued: %s' % ', '.join(WRONG_CANDIDATE_FAILURES),
+                      found='caught around this call: %s' % sorted(caught))
+    if nsteps < 2:
+        raise AnalysisError('PGPMessage.decrypt: the two steps of a decryption attempt were not found inside the candidate loop')
 
 
 def check_readdressing(rep, prog, rid):
@@ -113,7 +211,11 @@ def check_readdressing(rep, prog, rid):
             raise AnalysisError('%s.encrypt: no returning path for an already encrypted message' % cls)
         for d in paths:
             ret = render(d['state'].ret) if d['state'].ret is not None else ''
-            ok = len(d['esk']) == 1 and not d['data'] and taint.mentions(ret, d['esk_obj']) and taint.mentions(ret, d['subject'])
+            parts = _or_parts(ret)
+            fresh = [x for x in parts if re.match(r'^(PGPMessage\(\)|<PGPMessage(#\d+)?>)$', x)]
+            # the caller's message ITSELF (not a copy: a copied container packet has lost its header) plus the new packet
+            ok = len(d['esk']) == 1 and not d['data'] and sorted(x for x in parts if x not in fresh) == sorted([d['esk_obj'], d['subject']]) and \
+                len(fresh) <= 1
             rep.check(ok, rid, '%s.encrypt' % cls, 'already encrypted: returns %s' % ret[:120],
                       'for a message that is already encrypted the result must be that message together with the new session-key packet',
                       where=fi.where, expected='%s | <session-key packet>' % d['subject'], found=ret, scenario='already encrypted')
@@ -358,13 +460,13 @@ def _sessionkey_iterations(fn, universe):
                     continue
                 later = [x for h in node.generators[gi + 1:] for x in [h.iter] + list(h.ifs)]
                 body = [node.key, node.value] if isinstance(node, ast.DictComp) else [node.elt]
-                out.append((tv.id, S, ('comp', list(g.ifs), later + body), node.lineno, ast.unparse(g.iter)))
+                out.append((tv.id, S, ('comp', list(g.ifs), later + body), node.lineno, ast.unparse(g.iter), node))
         elif isinstance(node, ast.For):
             tv, it = target_var(node.target, node.iter)
             S = elements(it)
             if S is None or not isinstance(tv, ast.Name):
                 continue
-            out.append((tv.id, S, ('loop', list(node.body)), node.lineno, ast.unparse(node.iter)))
+            out.append((tv.id, S, ('loop', list(node.body)), node.lineno, ast.unparse(node.iter), node))
     return out
 
 
@@ -375,7 +477,7 @@ def check_sessionkey_consumers(rep, prog, rid):
     universe = _sessionkey_universe(prog)
     n = 0
     for fn in prog.all_functions():
-        for var, S, shape, lineno, ittext in _sessionkey_iterations(fn, universe):
+        for var, S, shape, lineno, ittext, _node in _sessionkey_iterations(fn, universe):
             n += 1
             nr = _Narrow(var, universe)
             if shape[0] == 'comp':
